@@ -86,16 +86,19 @@ _SERVER = [None]
 _ADDR = {}
 
 
+def _start_server():
+    srv = sim.TcpServer(SPECS)
+    s = sim.TcpSession(srv)
+    s.send(rc.req_read_tag([{'symbolic': 'I16'}], 1))       # makes the simulator set up its tags
+    s.close()
+    from cpppo.server.enip import device
+    for sp in SPECS:
+        _ADDR[sp['name']] = tuple(device.resolve_tag(sp['name']))
+    return srv
+
+
 def server():
-    if _SERVER[0] is None:
-        _SERVER[0] = sim.TcpServer(SPECS)
-        s = sim.TcpSession(_SERVER[0])
-        s.send(rc.req_read_tag([{'symbolic': 'I16'}], 1))       # makes the simulator set up its tags
-        s.close()
-        from cpppo.server.enip import device
-        for sp in SPECS:
-            _ADDR[sp['name']] = tuple(device.resolve_tag(sp['name']))
-    return _SERVER[0]
+    return sim.per_process('c12', _start_server)
 
 
 def client_op(op, fragment):
